@@ -16,7 +16,7 @@ HIST_TECH = "deterministic simulation: seeded operation histories with injected 
 
 chk("C04", "disk", "fault_enumeration",
     "Writer/disk/reader simulation: documents serialised by the library itself are stored on a simulated (and a real) disk; every torn-write cut point of every sampled document is enumerated and must be rejected, ill-formed UTF-8 is injected at drawn positions and must be rejected, storage corruption (bit flips, lost/duplicated spans, zeroed tails, garbage) and read faults (ENOENT, EACCES, EISDIR, EIO with partial data) are injected and the outcome must be total, exclusive, repeatable and identical between ParseFile and ParseObject. Enumeration of cut points per document is exhaustive; documents and corruptions are sampled.",
-    "Trusts: os.ReadFile replacement rule R4 (ParseFile is also run against a real temporary directory), the generator of documents (library's own String()). Cut points exhaustive per document; documents sampled.",
+    "Trusts: os.ReadFile replacement rule R4 (ParseFile is also run against a real temporary directory, exclusively so when ParseFile no longer goes through os.ReadFile), the generator of documents (library's own String()). Cut points exhaustive for documents up to 1 KiB, sampled above; documents, corruptions, token soups, re-encodings and environments (locale, time zone) sampled. A run that does not terminate is re-run alone for 120 s before it is reported.",
     "deterministic simulation: simulated disk with torn writes at every offset, stored-byte corruption and read faults, writer/reader oracle", "DESIGN.md §3 C04, appendix D")
 chk("C05", "hist", "exploration",
     "Seeded programs of list operations (valid and invalid arguments, rejected values as injected faults, lists grown past capacity, containers nested acyclically) run against the real List and a sequence-with-references model; after every step every live container must show exactly what the model predicts (whole-heap invariant), panics must occur exactly on out-of-domain indices/ranges, and a panicking single-index operation must leave every list unchanged.",
@@ -38,7 +38,7 @@ chk("C13", "hist", "exploration",
     HIST_NOTE, HIST_TECH, "DESIGN.md §2, §3 C13")
 chk("C15", "async", "exploration",
     "Seeded search over goroutine schedules: every ForEachAsync/MapAsync call and every set of concurrent read-only clients runs under a token-passing scheduler that decides each interleaving from VERIF_SEED; the recorded history is checked for exactly-once delivery and return-after-all-callbacks, MapAsync is compared with Map, reader results with their sequential values, and ThreadSanitizer judges the library's own synchronisation on the serialised execution. Sampling of an unbounded schedule space is the right level: the property quantifies over all interleavings.",
-    "Trusts: the reading of sync.WaitGroup/Mutex semantics in simrt, ThreadSanitizer's happens-before analysis (bounded history), the rewrite rules R1-R3 (fidelity-tested with the repository's own tests). Sampled, not exhaustive; <= 8 workers per call, <= 4 clients.",
+    "Trusts: the reading of sync.WaitGroup/Mutex/RWMutex/Once, channel, select and timer semantics in simrt, ThreadSanitizer's happens-before analysis (bounded history), the rewrite rules R1-R3, R6-R9 (fidelity-tested with the repository's own tests; behaviour-preserving refactorings incl. channel- and select-based ones stay green). Sampled, not exhaustive; containers of 0..4097 elements, 2..10 reader clients, simulated clock with injected stalls. Reaching the step bound is inconclusive (exit 2), never a violation; sync.Cond, tickers and context are not simulated (reported as unmanaged, a hang is then inconclusive).",
     "deterministic simulation: seeded token-passing scheduler over rewritten sync/go/map-range seams, history checking, happens-before race detection on the serialised run", "DESIGN.md §1.2, §3 C15")
 chk("C19", "hist", "exploration",
     "User types embedding a List/Object one and two levels deep are ordinary citizens of the simulated heap: every fluent method (enumerated from the interfaces by reflection) must return the registered outer value, Ego too, and stored derived values must come back identical from Get, typed getters, GetTF, typed iteration, typed slices, typed filters, Values and Dict, inside arbitrary histories.",
